@@ -23,3 +23,4 @@ func Crash(point string)                                                {}
 func Transport(scheme, host string) http.RoundTripper                   { return nil }
 func WrapReader(r io.Reader) io.Reader                                  { return r }
 func WrapWriter(w io.Writer) io.Writer                                  { return w }
+func Exit(code int)                                                     {}
